@@ -96,6 +96,11 @@ Proof. exact (dft_geom K W N WN a k). Qed.
 Theorem C13_dft_cexp (k0 k : nat) : (k0 < N)%nat -> (k < N)%nat ->
   dft W N (fun n => pw (1 / W) (k0 * n)) k = if Nat.eq_dec k k0 then ofnat N else 0.
 Proof. exact (dft_cexp K W N HN WN Wprim k0 k). Qed.
+(* on-bin sinusoid with phase = two tones: exp(+j..) lands on bin k0, exp(-j..) on bin N - k0 *)
+Theorem C13_dft_two_tone (A B : K) (k0 k : nat) : (0 < k0 < N)%nat -> (k < N)%nat ->
+  dft W N (fun n => A * pw (1 / W) (k0 * n) + B * pw W (k0 * n)) k
+  = A * (if Nat.eq_dec k k0 then ofnat N else 0) + B * (if Nat.eq_dec k (N - k0) then ofnat N else 0).
+Proof. exact (dft_two_tone K W N HN WN Wprim A B k0 k). Qed.
 End DFTprops.
 
 (* ---- z-transform -------------------------------------------------------- *)
@@ -161,6 +166,7 @@ Print Assumptions C13_dft_impulse.
 Print Assumptions C13_dft_const.
 Print Assumptions C13_dft_geom.
 Print Assumptions C13_dft_cexp.
+Print Assumptions C13_dft_two_tone.
 Print Assumptions C13_zt_term_sound.
 Print Assumptions C13_zt_unique.
 Print Assumptions C13_zt_add_sound.
